@@ -3,6 +3,7 @@
 
 use vcore::runner::{parse_args, run_check};
 
+mod c01;
 mod c21;
 
 /// Expands to a `match` over property ids calling the generic function `$f`
@@ -10,6 +11,7 @@ mod c21;
 macro_rules! dispatch {
     ($id:expr, $f:ident ( $($extra:expr),* )) => {
         match $id {
+            "C01" => $f(c01::C01, $($extra),*),
             "C21" => $f(c21::C21, $($extra),*),
             other => {
                 eprintln!("unknown property id {}", other);
@@ -34,6 +36,31 @@ fn run<C: vcore::Check>(c: C, args: vcore::Args) -> i32 {
 
 fn main() {
     let argv: Vec<String> = std::env::args().skip(1).collect();
+    if argv.first().map(|s| s == "sql").unwrap_or(false) {
+        // dev helper: run ';'-separated statements from stdin against a fresh database
+        let mut txt = String::new();
+        std::io::Read::read_to_string(&mut std::io::stdin(), &mut txt).unwrap();
+        let mut db = vibesql_storage::Database::new();
+        vcore::runner::install_panic_hook();
+        for stmt in txt.split(";\n") {
+            let stmt = stmt.trim();
+            if stmt.is_empty() {
+                continue;
+            }
+            println!("> {}", stmt);
+            match vcore::runner::catch(|| vcore::engine::exec(&mut db, stmt)) {
+                Ok(Ok(vcore::engine::Out::Rows(rows))) => {
+                    for r in rows {
+                        println!("  {:?}", r.values);
+                    }
+                }
+                Ok(Ok(o)) => println!("  {:?}", o),
+                Ok(Err(e)) => println!("  ERR {}", e.text()),
+                Err(p) => println!("  PANIC {}", p),
+            }
+        }
+        return;
+    }
     let code = if argv.first().map(|s| s == "--worker").unwrap_or(false) {
         let id = argv.get(1).cloned().unwrap_or_default();
         dispatch!(id.as_str(), worker())
